@@ -12,3 +12,331 @@ impl super::Debugger {
         self.debugee.program_debug_info()
     }
 }
+
+// ---------------------------------------------------------------------------------------
+// C09: seeded delay injection inside the tracer and an ordered log of what the tracer sees
+// (waitpid results) and does (ptrace requests). Off by default: without `set_delay` /
+// `set_trace` every hook below returns at once.
+// ---------------------------------------------------------------------------------------
+use std::sync::Mutex;
+use std::sync::atomic::{AtomicBool, AtomicU64, Ordering};
+
+static DELAY_STATE: AtomicU64 = AtomicU64::new(0);
+static DELAY_MAX_US: AtomicU64 = AtomicU64::new(0);
+static DELAY_COUNT: AtomicU64 = AtomicU64::new(0);
+static TRACE_ON: AtomicBool = AtomicBool::new(false);
+static TRACE: Mutex<Vec<TraceEv>> = Mutex::new(Vec::new());
+
+/// seed 0 switches the delays off
+pub fn set_delay(seed: u64, max_us: u64) {
+    DELAY_STATE.store(seed, Ordering::SeqCst);
+    DELAY_MAX_US.store(max_us, Ordering::SeqCst);
+    DELAY_COUNT.store(0, Ordering::SeqCst);
+}
+
+/// number of delays really slept since `set_delay`
+pub fn delay_count() -> u64 {
+    DELAY_COUNT.load(Ordering::SeqCst)
+}
+
+/// Called at the tracer's wait / interrupt points: sleeps 0..max µs (every second call on
+/// average), the sequence is a function of the seed only.
+pub fn delay(_site: u32) {
+    let mut x = DELAY_STATE.load(Ordering::Relaxed);
+    if x == 0 {
+        return;
+    }
+    x ^= x << 13;
+    x ^= x >> 7;
+    x ^= x << 17;
+    DELAY_STATE.store(if x == 0 { 1 } else { x }, Ordering::Relaxed);
+    let max = DELAY_MAX_US.load(Ordering::Relaxed);
+    if max == 0 || (x >> 20) & 1 == 0 {
+        return;
+    }
+    let us = (x >> 24) % (max + 1);
+    DELAY_COUNT.fetch_add(1, Ordering::Relaxed);
+    if us >= 200 {
+        std::thread::sleep(std::time::Duration::from_micros(us));
+    } else {
+        let t0 = std::time::Instant::now();
+        while (t0.elapsed().as_micros() as u64) < us {
+            std::hint::spin_loop();
+        }
+    }
+}
+
+#[derive(Debug, Clone, PartialEq, Eq)]
+pub enum WaitRec {
+    Exited {
+        tid: i32,
+        code: i32,
+    },
+    /// PTRACE_EVENT_*: event code and PTRACE_GETEVENTMSG (the new thread id for a clone)
+    Event {
+        tid: i32,
+        event: i32,
+        msg: i64,
+    },
+    /// signal-delivery-stop with the si_code and the rip the tracer reads right after it
+    Stopped {
+        tid: i32,
+        sig: i32,
+        si_code: i32,
+        pc: u64,
+    },
+    /// stopped, but PTRACE_GETSIGINFO answers ESRCH
+    Gone {
+        tid: i32,
+        sig: i32,
+    },
+    Signaled {
+        tid: i32,
+        sig: i32,
+    },
+    Other {
+        tid: i32,
+    },
+    Error {
+        errno: i32,
+    },
+}
+
+#[derive(Debug, Clone, Copy, PartialEq, Eq)]
+pub enum ReqKind {
+    Cont,
+    Step,
+    Syscall,
+    Interrupt,
+    SetPc,
+    Detach,
+}
+
+#[derive(Debug, Clone, PartialEq, Eq)]
+pub enum StopRec {
+    Exit(i32),
+    Start,
+    Breakpoint(i32, u64),
+    Watchpoint(i32, u64),
+    Signal(i32, i32),
+    NoSuchProcess(i32),
+}
+
+/// (address, kind, pid, enabled); kind: 0 user, 1 temporary, 2 temporary-async, 3 companion,
+/// 4 entry point / linker map / transparent
+pub type BpRec = (u64, u8, i32, bool);
+
+#[derive(Debug, Clone, PartialEq, Eq)]
+pub enum TraceEv {
+    /// waitpid(target) returned (target -1: any child)
+    Wait { target: i32, st: WaitRec },
+    /// a ptrace request (data: the signal to inject, or the new rip); `ok` false = ESRCH
+    Req {
+        kind: ReqKind,
+        tid: i32,
+        data: u64,
+        ok: bool,
+    },
+    /// the byte at a breakpoint address is rewritten (true: 0xCC goes in)
+    Patch { addr: u64, enable: bool },
+    /// `Tracer::resume` (op 0) / `Tracer::single_step` (op 1, pid) is called from `Debugee`
+    CallBegin { op: u8, pid: i32, bps: Vec<BpRec> },
+    /// ... and returned
+    CallEnd {
+        ok: bool,
+        stop: Option<StopRec>,
+        err: String,
+    },
+}
+
+pub fn set_trace(on: bool) {
+    TRACE_ON.store(on, Ordering::SeqCst);
+    TRACE.lock().unwrap().clear();
+}
+
+pub fn take_trace() -> Vec<TraceEv> {
+    std::mem::take(&mut *TRACE.lock().unwrap())
+}
+
+fn push(ev: TraceEv) {
+    TRACE.lock().unwrap().push(ev);
+}
+
+fn wait_rec(status: &nix::sys::wait::WaitStatus) -> WaitRec {
+    use nix::sys::wait::WaitStatus as W;
+    match *status {
+        W::Exited(p, code) => WaitRec::Exited {
+            tid: p.as_raw(),
+            code,
+        },
+        W::PtraceEvent(p, _, event) => WaitRec::Event {
+            tid: p.as_raw(),
+            event,
+            msg: nix::sys::ptrace::getevent(p).unwrap_or(-1) as i64,
+        },
+        W::Stopped(p, sig) => match nix::sys::ptrace::getsiginfo(p) {
+            Ok(info) => WaitRec::Stopped {
+                tid: p.as_raw(),
+                sig: sig as i32,
+                si_code: info.si_code,
+                pc: nix::sys::ptrace::getregs(p).map(|r| r.rip).unwrap_or(0),
+            },
+            Err(_) => WaitRec::Gone {
+                tid: p.as_raw(),
+                sig: sig as i32,
+            },
+        },
+        W::Signaled(p, sig, _) => WaitRec::Signaled {
+            tid: p.as_raw(),
+            sig: sig as i32,
+        },
+        ref other => WaitRec::Other {
+            tid: other.pid().map(|p| p.as_raw()).unwrap_or(-1),
+        },
+    }
+}
+
+pub fn rec_wait(target: nix::unistd::Pid, status: &nix::sys::wait::WaitStatus) {
+    if TRACE_ON.load(Ordering::Relaxed) {
+        push(TraceEv::Wait {
+            target: target.as_raw(),
+            st: wait_rec(status),
+        });
+    }
+}
+
+pub fn rec_wait_err(target: nix::unistd::Pid, errno: nix::errno::Errno) {
+    if TRACE_ON.load(Ordering::Relaxed) {
+        push(TraceEv::Wait {
+            target: target.as_raw(),
+            st: WaitRec::Error {
+                errno: errno as i32,
+            },
+        });
+    }
+}
+
+pub fn rec_req(kind: ReqKind, tid: nix::unistd::Pid, data: u64) {
+    if TRACE_ON.load(Ordering::Relaxed) {
+        push(TraceEv::Req {
+            kind,
+            tid: tid.as_raw(),
+            data,
+            ok: true,
+        });
+    }
+}
+
+/// the request recorded last was answered ESRCH
+pub fn rec_fail() {
+    if TRACE_ON.load(Ordering::Relaxed)
+        && let Some(TraceEv::Req { ok, .. }) = TRACE.lock().unwrap().last_mut()
+    {
+        *ok = false;
+    }
+}
+
+pub fn rec_patch(addr: usize, enable: bool) {
+    if TRACE_ON.load(Ordering::Relaxed) {
+        push(TraceEv::Patch {
+            addr: addr as u64,
+            enable,
+        });
+    }
+}
+
+fn stop_rec(s: &super::StopReason) -> StopRec {
+    use super::StopReason as S;
+    match s {
+        S::DebugeeExit(c) => StopRec::Exit(*c),
+        S::DebugeeStart => StopRec::Start,
+        S::Breakpoint(p, a) => StopRec::Breakpoint(p.as_raw(), a.as_u64()),
+        S::Watchpoint(p, a, _) => StopRec::Watchpoint(p.as_raw(), a.as_u64()),
+        S::SignalStop(p, s) => StopRec::Signal(p.as_raw(), *s as i32),
+        S::NoSuchProcess(p) => StopRec::NoSuchProcess(p.as_raw()),
+    }
+}
+
+pub fn rec_call_begin(op: u8, pid: i32, tcx: &super::debugee::tracer::TraceContext) {
+    use super::breakpoint::BrkptType as T;
+    if TRACE_ON.load(Ordering::Relaxed) {
+        let bps = tcx
+            .breakpoints
+            .iter()
+            .map(|b| {
+                let kind = match b.r#type() {
+                    T::UserDefined => 0,
+                    T::Temporary => 1,
+                    T::TemporaryAsync => 2,
+                    T::WatchpointCompanion(_) => 3,
+                    T::EntryPoint | T::LinkerMapFn | T::Transparent(_) => 4,
+                };
+                (b.addr.as_u64(), kind, b.pid.as_raw(), b.is_enabled())
+            })
+            .collect();
+        push(TraceEv::CallBegin { op, pid, bps });
+    }
+}
+
+pub fn rec_call_end_resume(r: &super::StopReason) {
+    if TRACE_ON.load(Ordering::Relaxed) {
+        push(TraceEv::CallEnd {
+            ok: true,
+            stop: Some(stop_rec(r)),
+            err: String::new(),
+        });
+    }
+}
+
+pub fn rec_call_end_step(r: &Result<Option<super::StopReason>, super::Error>) {
+    if TRACE_ON.load(Ordering::Relaxed) {
+        push(match r {
+            Ok(s) => TraceEv::CallEnd {
+                ok: true,
+                stop: s.as_ref().map(stop_rec),
+                err: String::new(),
+            },
+            Err(e) => TraceEv::CallEnd {
+                ok: false,
+                stop: None,
+                err: e.to_string(),
+            },
+        });
+    }
+}
+
+impl super::Debugger {
+    /// the tracer's thread table as it is: (tid, stopped?, signal of a signal-stop or 0)
+    pub fn verif_tracees(&self) -> Vec<(i32, bool, i32)> {
+        use super::debugee::tracee::{StopType, TraceeStatus};
+        self.debugee
+            .tracee_ctl()
+            .snapshot()
+            .into_iter()
+            .map(|t| match t.status {
+                TraceeStatus::Running => (t.pid.as_raw(), false, 0),
+                TraceeStatus::Stopped(StopType::Interrupt) => (t.pid.as_raw(), true, 0),
+                TraceeStatus::Stopped(StopType::SignalStop(s)) => (t.pid.as_raw(), true, s as i32),
+            })
+            .collect()
+    }
+
+    /// (address, kind, pid, enabled) of every breakpoint the tracer is given
+    pub fn verif_active_breakpoints(&self) -> Vec<BpRec> {
+        use super::breakpoint::BrkptType as T;
+        self.breakpoints
+            .active_breakpoints()
+            .iter()
+            .map(|b| {
+                let kind = match b.r#type() {
+                    T::UserDefined => 0,
+                    T::Temporary => 1,
+                    T::TemporaryAsync => 2,
+                    T::WatchpointCompanion(_) => 3,
+                    T::EntryPoint | T::LinkerMapFn | T::Transparent(_) => 4,
+                };
+                (b.addr.as_u64(), kind, b.pid.as_raw(), b.is_enabled())
+            })
+            .collect()
+    }
+}
